@@ -114,6 +114,15 @@ def gen_case(rng, tier):
             coll.append([[base + rng.random() * span, 0.0] for _ in range(n)])
             for q in coll[-1]:
                 q[1] = q[0] + 0.05 * span + rng.random() * span
+        if rng.random() < 0.3:
+            # coordinates on a decimal lattice (multiples of 0.1): extents whose quotient by the pixel size is a hair
+            # above or below an integer in binary floating point
+            b0_ = rng.choice((0.0, 0.1, 1.0, -0.3))
+            coll = [[[b0_ + rng.randint(0, 9) * 0.1, 0.0] for _ in range(rng.randint(1, 4))] for _ in range(rng.randint(1, 3))]
+            for d_ in coll:
+                for q in d_:
+                    q[1] = q[0] + rng.randint(1, 9) * 0.1
+            base, span = b0_, 0.4          # whatever is appended below stays next to this data
         r_ = rng.random()
         if r_ < 0.12:
             # H0-like data: every birth coincides (a degenerate birth axis); the statement makes no exception for
